@@ -12,6 +12,7 @@ UNITS = {
     "int_encoders": {"template": "contracts/int_encoders.vrs", "rlimit": 30},
     "conditions_parse": {"template": "contracts/conditions_parse.vrs", "rlimit": 60},
     "costs": {"template": "contracts/costs.vrs", "rlimit": 30},
+    "bls_cache": {"template": "contracts/bls_cache.vrs", "rlimit": 30},
     "merkle_set": {"template": "contracts/merkle_set.vrs", "rlimit": 60},
     "tree_hash": {"template": "contracts/tree_hash.vrs", "rlimit": 60},
     "streamable_core": {"template": "contracts/streamable_core.vrs", "rlimit": 60},
@@ -177,6 +178,20 @@ PROPS["C12"] = {
         "merkle_tree.rs: MerkleSet::from_leafs/get_root agreement with compute_merkle_set_root",
         "generate_proof completeness and validate_merkle_proof soundness (needs ideal_hash axiom and the proof-deserialisation stack machine)",
         "Python bindings (wheel/src/api.rs)",
+    ],
+}
+
+PROPS["C15"] = {
+    "level": "proof",
+    "technique": "Verus contract on the real BlsCacheData::put (capacity invariant + whole-map frame) over an assumed LinkedHashMap model; native evaluation of ground verdict-agreement obligations (cache vs plain, infinity key) on the real crates",
+    "level_text": "Deductive proof that put keeps the number of entries <= capacity for every prior cache content (inductive invariant, so for every history of puts), stores the pairing under its key and changes no other key except the single evicted oldest entry. The verdict clauses (cache-assisted == plain, infinity never valid) are pairing algebra inside blst: only ground instances are decided, by evaluating the real code on fixed pair lists with cold and warm caches.",
+    "level_note": "Schedules (interleavings of concurrent verifications) are NOT covered: Kani has no threads and Verus would need the code rewritten onto its own lock types. Agreement of verify/aggregate_verify/aggregate_verify_gt in general is a theorem about blst, assumed. LinkedHashMap/NonZeroUsize contracts assumed (read from linked-hash-map 0.5.6).",
+    "components": [V("bls_cache"), N("native_bls_cache_ground", "bls_cache_ground")],
+    "assumptions": ["linked_hash_map::LinkedHashMap insertion-ordered map model (shims/lhm.rs)", "blst pairing algebra (foreign code)"],
+    "not_covered": [
+        "interleavings of concurrent verifications at lock granularity (schedules quantifier)",
+        "general agreement of verify / aggregate_verify / aggregate_verify_gt (pairing algebra in blst)",
+        "the map-closure of BlsCache::aggregate_verify, update and evict (generic IntoIterator + Mutex: outside Verus's subset); cache-transparency is argued from put's frame, not machine-checked",
     ],
 }
 
